@@ -259,6 +259,12 @@ func StrLess(a, b string) bool { return a < b }
 // harnesses that execute it. No effect natively.
 func Summarize(fullName string) {}
 
+// CallUnexported executes the unexported function pkgPath.name of /repo (the package must be
+// imported by the harness so that it is loaded) and returns its last result (engine only).
+func CallUnexported(pkgPath, name string, args ...interface{}) interface{} {
+	panic("zzverif.CallUnexported: symbolic execution only")
+}
+
 // Concretize splits the execution over the values lo..hi of v (one path per value, each
 // with v constant); a value outside the range is reported as an unwinding failure, never
 // silently dropped. Natively the identity.
